@@ -212,6 +212,8 @@ pub struct HybState {
     pub cur_write: Option<(u64, u32)>,
     /// version counter value at the first explicit close() since the last (re)open
     pub close_ver: Option<u32>,
+    /// number of device writes issued by the workload proper (C04 / C03: later writes belong to recoveries)
+    pub crash_writes: usize,
 }
 
 thread_local! {
@@ -564,6 +566,16 @@ fn model_write(k: u64, ver: u32, len: usize, loc: u8, class: u32) {
     });
 }
 
+/// Makes the key and the version known to the model before the operation runs (probes fired from inside the operation
+/// are attributed through the model) without making it current yet.
+fn model_register(k: u64, ver: u32, len: usize, loc: u8, class: u32) {
+    ST.with(|s| {
+        let mut s = s.borrow_mut();
+        let m = s.model.entry(k).or_default();
+        m.versions.insert(ver, VerInfo { len, loc, class, written_inv: OP_INV.with(|c| c.get()) });
+    });
+}
+
 fn model_remove(k: u64) {
     ST.with(|s| {
         let mut s = s.borrow_mut();
@@ -684,6 +696,7 @@ impl Hyb {
                 let ver = fresh_ver();
                 let len = value_len(&self.g, *w, ver);
                 let v = make_value(*k, ver, len, case.get("comp") != 0 && ver % 2 == 0);
+                model_register(*k, ver, len, *loc, *w);
                 ST.with(|s| s.borrow_mut().cur_write = Some((*k, ver)));
                 let e = if *loc == 0 && ver % 2 == 0 {
                     cache.insert(*k, v)
@@ -709,6 +722,7 @@ impl Hyb {
                 let v = make_value(*k, ver, len, false);
                 let wr = cache.storage_writer(*k);
                 let wr = if *force { wr.force() } else { wr };
+                model_register(*k, ver, len, 2, *w);
                 ST.with(|s| s.borrow_mut().cur_write = Some((*k, ver)));
                 let r = wr.insert(v);
                 match r {
@@ -726,9 +740,6 @@ impl Hyb {
             Op::Get { k, hold } => match cache.get(k).await {
                 Ok(Some(e)) => {
                     let r = judge(&case, *k, e.value(), "get");
-                    if std::env::var("VERIF_DEBUG").is_ok() {
-                        eprintln!("[debug] get {k}: refs {} source {:?}", e.refs(), e.source());
-                    }
                     note_source(*k, e.source());
                     hist::ev("h_get", *k, r.ver as u64, src(e.source()) | (age_of(&e) << 8));
                     if age_of(&e) == 2 {
@@ -777,9 +788,6 @@ impl Hyb {
                 match fut.await {
                     Ok(e) => {
                         let r = judge(&case, *k, e.value(), "get_or_fetch");
-                        if std::env::var("VERIF_DEBUG").is_ok() {
-                            eprintln!("[debug] fetch {k}: refs {} source {:?}", e.refs(), e.source());
-                        }
                         let s = src(e.source());
                         hist::ev("h_fetch", *k, r.ver as u64, s | (age_of(&e) << 8));
                         if *hold {
@@ -1000,6 +1008,10 @@ fn src(s: Source) -> u64 {
     }
 }
 
+pub fn reinstall_event_sink() {
+    foyer_common::verif::set_event_sink(on_foyer_event);
+}
+
 pub fn init_state(case: &Case) {
     ST.with(|s| {
         *s.borrow_mut() = HybState {
@@ -1038,6 +1050,8 @@ pub fn exec(case: &Case) {
             ST.with(|s| s.borrow_mut().oplog.push(OpRec { client: 0, idx, op: op.clone(), inv, ret, res }));
         }
         crate::hyboracle::end_of_workload(&mut h).await;
+        // everything worth observing has been observed; what remains is the tear-down of the simulated runtime
+        crate::run::phase_done();
         h.shutdown(true).await;
         hist::ev("end", 0, 0, 0);
     });
